@@ -16,6 +16,7 @@ PROP_MODULES = {
     'C02': ['obligations.e2_jobs', 'obligations.cache_ops'],
     'C13': ['obligations.e2_jobs', 'obligations.fanout_ops'],
     'C06': ['obligations.block_ops'],
+    'C18': ['obligations.e2_jobs', 'obligations.persistence_ops', 'obligations.fanout_ops'],
     'C15': ['obligations.recipes_ops'],
     'C20': ['obligations.recipes_ops'],
     'C19': ['obligations.django_ops'],
